@@ -694,3 +694,239 @@ Proof.
   destruct (partition_problem basis_of relabel dx n ncl ncr c labels (Some ps)) as [r| |] eqn:E; try discriminate.
   exact (PartitionP.idle_observable_never_ok basis_of relabel dx n ncl ncr c labels ps p q r Hp Hq Hl Hnz E).
 Qed.
+
+(* ====================================================================== *)
+(* I. the whole chain  core (C05) ; exact sampler ; reconstruct_parts (C06)  *)
+(* ====================================================================== *)
+From CKT Require Import Common.Circ Model.Decompose Model.Measurement.
+
+Lemma nth_map_run {A B} (f : A -> B) (l : list A) (i : nat) (x : A) (d : B) :
+  nth_error l i = Some x -> nth i (map f l) d = f x.
+Proof. intros H. apply nth_error_nth. now rewrite nth_error_map, H. Qed.
+
+Lemma Forall2_nth_error {A B} (R : A -> B -> Prop) l l' :
+  Forall2 R l l' -> forall i a b, nth_error l i = Some a -> nth_error l' i = Some b -> R a b.
+Proof.
+  induction 1 as [|x y l l' Hxy HF IH]; intros [|i] a b Ha Hb; try discriminate.
+  - inversion Ha; inversion Hb; subst. exact Hxy.
+  - exact (IH i a b Ha Hb).
+Qed.
+
+Lemma Forall2_nth_error_l {A B} (R : A -> B -> Prop) l l' :
+  Forall2 R l l' -> forall i a, nth_error l i = Some a -> exists b, nth_error l' i = Some b /\ R a b.
+Proof.
+  induction 1 as [|x y l l' Hxy HF IH]; intros [|i] a Ha; try discriminate.
+  - inversion Ha; subst. exists y. split; [reflexivity|exact Hxy].
+  - exact (IH i a Ha).
+Qed.
+
+Lemma nth_error_combine {A B} (l : list A) (l' : list B) i a b :
+  nth_error (combine l l') i = Some (a, b) -> nth_error l i = Some a /\ nth_error l' i = Some b.
+Proof.
+  revert l' i. induction l as [|x l IH]; intros [|y l'] [|i] H; try discriminate.
+  - inversion H; subst. auto.
+  - exact (IH l' i H).
+Qed.
+
+Section Generated.
+  Variables (gh gsx : nat) (env : benv).
+  Variable run : mcirc -> list (Reconstruct.key * Q).
+  Variable den : Reconstruct.key -> N.
+  Variables (C : list (list Q)) (table : list (nat * pinfo)) (og : list (nat * list ogroup)) (W : sdict).
+  Variables (out : list (nat * list mcirc)) (cq : list (Q * wkind)).
+  Hypothesis Hcore : Experiments.core gh gsx env C table og W = Ok (out, cq).
+
+  (* the reconstruction's view of the same observable collections: one `part` per entry of og, with as many groups *)
+  Variable rparts : list Reconstruct.part.
+  Variable nobs : nat.
+  Hypothesis rparts_groups :
+    Forall2 (fun lg rp => length (Reconstruct.pgroups rp) = length (snd lg)) og rparts.
+  Hypothesis rparts_shape : forall rp, In rp rparts ->
+    length (Reconstruct.plookup rp) = nobs /\ Reconstruct.locs_ok rp.
+
+  Let S := sort_samples W.
+  Let E := E_all gh gsx env run den table og rparts.
+  Let L := L_of (length C) table og.
+
+  (* one partition: the decoded results of sample z are E_gen at the projection of the sample's joint map *)
+  Lemma generated_partition_exact lg le rp z s k :
+    entry_ok gh gsx env table S lg le ->
+    length (Reconstruct.pgroups rp) = length (snd lg) ->
+    length (Reconstruct.plookup rp) = nobs -> Reconstruct.locs_ok rp ->
+    nth_error S z = Some s -> length (s_ids s) = length C -> k < nobs ->
+    Reconstruct.E den (rp, Reconstruct.DV1 (map run (snd le))) z k
+    = E_gen gh gsx env run den rp (pinfo_of table (fst lg)) (snd lg)
+        (project_ids (sfx_of (length C) (pinfo_of table (fst lg))) (s_ids s)) k.
+  Proof.
+    intros (_ & _ & Hent) HG Hlk Hlocs Hs Hlen Hk.
+    unfold Reconstruct.E, E_gen. cbn [fst snd]. f_equal. apply map_ext_in. intros [m n] Hmn. cbn [fst snd].
+    assert (Hin : In (nth k (Reconstruct.plookup rp) []) (Reconstruct.plookup rp)) by (apply nth_In; lia).
+    destruct (Hlocs _ m n Hin Hmn) as (Hm & _). rewrite HG in Hm.
+    destruct (nth_error (snd lg) m) as [g|] eqn:Eg; [|apply nth_error_None in Eg; lia].
+    destruct (Hent z m s g Hs Eg) as (e & (p & ms & Hp & Hms & Hb) & He).
+    rewrite HG. cbn [Reconstruct.E_exp]. rewrite (nth_map_run run _ _ _ [] He). cbn [nth].
+    rewrite (nth_error_nth _ _ empty_ogroup Eg).
+    unfold pinfo_of. rewrite Hp. unfold exp_of, sfx_of.
+    assert (Hpr : ms = project_ids match pi_sfx p with Some sfx => sfx | None => identity_sfx (length C) end (s_ids s)).
+    { destruct (pi_sfx p) as [sfx|]; [now apply project_is_project_ids|].
+      inversion Hms; subst. rewrite <- Hlen. symmetry. apply project_identity. }
+    rewrite <- Hpr, Hb. reflexivity.
+  Qed.
+
+  Lemma sample_length z s : nth_error S z = Some s -> length (s_ids s) = length C.
+  Proof.
+    intros Hs. pose proof (core_coeffs _ _ _ _ _ _ _ _ _ Hcore) as HF.
+    destruct (Forall2_nth_error_l _ _ _ HF z s Hs) as (c & _ & cs & Hcs & _).
+    now apply chosen_coeffs_spec in Hcs.
+  Qed.
+
+  Theorem generated_roundtrip :
+    forall full, Forall2 (entry_ok gh gsx env table S) og full ->
+      forall (term : jkey -> nat -> Q) (Ev : nat -> Q) pyint0,
+      (forall k, k < nobs ->
+         (Ev k == sumQ (map (fun ids => (coeff_prod C ids * term ids k)%Q) (all_maps (map (@length Q) C))))%Q) ->
+      (forall ids k, In ids (all_maps (map (@length Q) C)) -> k < nobs -> (term ids k == part_prod L E ids k)%Q) ->
+      (forall v, In v C -> ~ (kappa_of v == 0)%Q) ->
+      exact_weights C W ->
+      (forall pd key, In pd (results_of run rparts full) -> In key (Reconstruct.keys_of (snd pd)) ->
+         Reconstruct.outcome_to_int pyint0 key = Some (den key)) ->
+      Reconstruct.res_Qeq (Reconstruct.reconstruct_parts pyint0 nobs (map fst cq) (results_of run rparts full))
+                          (Ok (map Ev (seq 0 nobs))).
+  Proof.
+    intros full HF.
+    intros term Ev pyint0 P1 P23 Hk HW Hkeys.
+    pose proof (core_coeffs _ _ _ _ _ _ _ _ _ Hcore) as Hcq.
+    assert (HlenS : length S = length cq) by (apply (Forall2_length' _ _ _ Hcq)).
+    assert (Hlen1 : length rparts = length og) by (symmetry; apply (Forall2_length' _ _ _ rparts_groups)).
+    assert (Hlen2 : length full = length og) by (symmetry; apply (Forall2_length' _ _ _ HF)).
+    (* components of an entry of the results list *)
+    assert (Hcomp : forall li pd, nth_error (results_of run rparts full) li = Some pd ->
+              exists lg le, nth_error og li = Some lg /\ nth_error full li = Some le /\
+                            nth_error rparts li = Some (fst pd) /\ snd pd = Reconstruct.DV1 (map run (snd le))).
+    { intros li [rp d] Hpd. unfold results_of in Hpd. apply nth_error_combine in Hpd as (H1 & H2).
+      rewrite nth_error_map in H2. destruct (nth_error full li) as [le|] eqn:Ele; [|discriminate]. inversion H2; subst.
+      destruct (nth_error og li) as [lg|] eqn:Elg.
+      - exists lg, le. auto.
+      - apply nth_error_None in Elg. assert (li < length full) by (apply nth_error_Some; congruence). lia. }
+    apply (roundtrip C L nobs term Ev E P1 P23 W cq Hk HW Hcq pyint0 den (results_of run rparts full)).
+    - unfold results_of, L, L_of. rewrite combine_length, !map_length. lia.
+    - intros pd Hpd. apply In_nth_error in Hpd as (li & Hli).
+      destruct (Hcomp li pd Hli) as (lg & le & Hlg & Hle & Hrp & ->). cbn [Reconstruct.data_len].
+      rewrite !map_length. destruct (Forall2_nth_error _ _ _ HF li lg le Hlg Hle) as (_ & Hcnt & _).
+      rewrite Hcnt, (Forall2_nth_error _ _ _ rparts_groups li lg (fst pd) Hlg Hrp). now rewrite HlenS.
+    - intros pd Hpd. apply rparts_shape. destruct pd as [rp d]. now apply in_combine_l in Hpd.
+    - exact Hkeys.
+    - intros li pd sfx z s k Hpd Hsfx Hs Hlt.
+      destruct (Hcomp li pd Hpd) as (lg & le & Hlg & Hle & Hrp & Hd).
+      unfold L, L_of in Hsfx. rewrite nth_error_map, Hlg in Hsfx. inversion Hsfx; subst sfx.
+      destruct (rparts_shape (fst pd) (nth_error_In _ _ Hrp)) as (Hlk & Hlocs).
+      rewrite (surjective_pairing pd), Hd.
+      rewrite (generated_partition_exact lg le (fst pd) z s k
+                 (Forall2_nth_error _ _ _ HF li lg le Hlg Hle)
+                 (Forall2_nth_error _ _ _ rparts_groups li lg (fst pd) Hlg Hrp) Hlk Hlocs Hs (sample_length z s Hs) Hlt).
+      unfold E, E_all. rewrite (nth_error_nth _ _ (0, []) Hlg), (nth_error_nth _ _ empty_part Hrp). reflexivity.
+  Qed.
+End Generated.
+
+(* the projection lists are DERIVED from the subcircuits: the label suffixes of the one-qubit placeholders of each
+   subcircuit, in circuit order (separated form); all cut ids in order (unseparated form) *)
+Lemma table_of_lookup d M l qc :
+  alookup d l = Some qc -> exists p, alookup (table_of d M) l = Some p.
+Proof.
+  unfold table_of. induction d as [|[l0 q0] d IH]; cbn [map alookup fst snd]; [discriminate|].
+  destruct (Nat.eqb l l0); [eauto|exact IH].
+Qed.
+
+Lemma L_of_dict d M og ncuts li lg qc :
+  mapping_by_partition d = Ok M -> nth_error og li = Some lg -> alookup d (fst lg) = Some qc ->
+  nth_error (L_of ncuts (table_of d M) og) li = Some (suffixes (mdata qc)).
+Proof.
+  intros HM Hlg Hqc. unfold L_of. rewrite nth_error_map, Hlg. cbn [option_map]. f_equal.
+  destruct (table_of_lookup d M _ _ Hqc) as (p & Hp). unfold pinfo_of. rewrite Hp.
+  destruct (table_lookup d M _ p HM Hp) as (qc' & ids & sfx & Hqc' & Hs & ->).
+  rewrite Hqc in Hqc'. inversion Hqc'; subst qc'. apply mapping_scan_spec in Hs as (_ & -> & _). reflexivity.
+Qed.
+
+Lemma L_of_single ncuts qc ids groups :
+  L_of ncuts [(label_A, mkPI qc ids None)] [(label_A, groups)] = [identity_sfx ncuts].
+Proof. reflexivity. Qed.
+
+(* from the public model of generate_cutting_experiments, separated form *)
+Theorem generated_roundtrip_dict gh gsx env cenv d od NS W dd cq
+  (run : mcirc -> list (Reconstruct.key * Q)) (den : Reconstruct.key -> N) :
+  generate gh gsx env cenv (CDict d) (ODict od) NS W = Ok (OutDict dd, cq) ->
+  let C := map (fun b => nth b cenv []) (bases_by_partition d) in
+  exists M og full,
+    mapping_by_partition d = Ok M /\ all_groups od = Ok og /\
+    dd = filter (fun le => negb (Nat.eqb (length (snd le)) 0)) full /\
+    Forall2 (entry_ok gh gsx env (table_of d M) (sort_samples W)) og full /\
+    (forall li lg qc, nth_error og li = Some lg -> alookup d (fst lg) = Some qc ->
+       nth_error (L_of (length C) (table_of d M) og) li = Some (suffixes (mdata qc))) /\
+    forall (rparts : list Reconstruct.part) (nobs : nat) (term : jkey -> nat -> Q) (Ev : nat -> Q) pyint0,
+    Forall2 (fun lg rp => length (Reconstruct.pgroups rp) = length (snd lg)) og rparts ->
+    (forall rp, In rp rparts -> length (Reconstruct.plookup rp) = nobs /\ Reconstruct.locs_ok rp) ->
+    (forall k, k < nobs ->
+       (Ev k == sumQ (map (fun ids => (coeff_prod C ids * term ids k)%Q) (all_maps (map (@length Q) C))))%Q) ->
+    (forall ids k, In ids (all_maps (map (@length Q) C)) -> k < nobs ->
+       (term ids k == part_prod (L_of (length C) (table_of d M) og)
+                                (E_all gh gsx env run den (table_of d M) og rparts) ids k)%Q) ->
+    (forall v, In v C -> ~ (kappa_of v == 0)%Q) ->
+    exact_weights C W ->
+    (forall pd key, In pd (results_of run rparts full) -> In key (Reconstruct.keys_of (snd pd)) ->
+       Reconstruct.outcome_to_int pyint0 key = Some (den key)) ->
+    Reconstruct.res_Qeq (Reconstruct.reconstruct_parts pyint0 nobs (map fst cq) (results_of run rparts full))
+                        (Ok (map Ev (seq 0 nobs))).
+Proof.
+  intros H C. destruct (generate_dict_inv _ _ _ _ _ _ _ _ _ H) as (_ & M & og & dd' & HM & Hog & Hcore & Hfst).
+  cbn [fst snd] in *. inversion Hfst; subst dd'. fold C in Hcore.
+  destruct (core_layout _ _ _ _ _ _ _ _ _ Hcore) as (full & HF & Hout).
+  exists M, og, full. split; [exact HM|split; [exact Hog|split; [exact Hout|split; [exact HF|split]]]].
+  - intros li lg qc. now apply L_of_dict.
+  - intros rparts nobs term Ev pyint0 G1 G2.
+    exact (generated_roundtrip gh gsx env run den C (table_of d M) og W dd cq Hcore rparts nobs G1 G2 full HF term Ev pyint0).
+Qed.
+
+(* ... and unseparated form: one partition, identity projection *)
+Theorem generated_roundtrip_single gh gsx env cenv qc gs NS W l cq
+  (run : mcirc -> list (Reconstruct.key * Q)) (den : Reconstruct.key -> N) :
+  generate gh gsx env cenv (CSingle qc) (OPaulis gs) NS W = Ok (OutList l, cq) ->
+  exists groups bs ids,
+    gs = Ok groups /\ get_bases 0 (mdata qc) = Ok (bs, ids) /\
+    let C := map (fun b => nth b cenv []) bs in
+    let table := [(label_A, mkPI qc ids None)] in
+    let og := [(label_A, groups)] in
+    forall (rp : Reconstruct.part) (nobs : nat) (term : jkey -> nat -> Q) (Ev : nat -> Q) pyint0,
+    length (Reconstruct.pgroups rp) = length groups ->
+    length (Reconstruct.plookup rp) = nobs -> Reconstruct.locs_ok rp ->
+    (forall k, k < nobs ->
+       (Ev k == sumQ (map (fun ids => (coeff_prod C ids * term ids k)%Q) (all_maps (map (@length Q) C))))%Q) ->
+    (forall ids k, In ids (all_maps (map (@length Q) C)) -> k < nobs ->
+       (term ids k == part_prod [identity_sfx (length C)] (E_all gh gsx env run den table og [rp]) ids k)%Q) ->
+    (forall v, In v C -> ~ (kappa_of v == 0)%Q) ->
+    exact_weights C W ->
+    (forall key, In key (Reconstruct.keys_of (Reconstruct.DV1 (map run l))) ->
+       Reconstruct.outcome_to_int pyint0 key = Some (den key)) ->
+    Reconstruct.res_Qeq (Reconstruct.reconstruct_parts pyint0 nobs (map fst cq) [(rp, Reconstruct.DV1 (map run l))])
+                        (Ok (map Ev (seq 0 nobs))).
+Proof.
+  intros H. destruct (generate_single_inv _ _ _ _ _ _ _ _ _ H) as (_ & groups & bs & ids & lA & l' & Hgs & Hb & Hcore & Hfst).
+  cbn [fst snd] in *. inversion Hfst; subst l'.
+  exists groups, bs, ids. split; [exact Hgs|split; [exact Hb|]]. cbv zeta. intros rp nobs term Ev pyint0 HG Hlk Hlocs P1 P23 Hk HW Hkeys.
+  set (C := map (fun b => nth b cenv []) bs) in *. set (table := [(label_A, mkPI qc ids None)]) in *.
+  set (og := [(label_A, groups)]) in *.
+  destruct (core_layout _ _ _ _ _ _ _ _ _ Hcore) as (full & HF & Hout).
+  assert (Hone : exists le, full = [le] /\ entry_ok gh gsx env table (sort_samples W) (label_A, groups) le).
+  { clear -HF. unfold og in HF. inversion HF as [|lg le og' full' Hle HF' E1 E2]. inversion HF'. exists le. auto. }
+  destruct Hone as (le & -> & Hle).
+  assert (G1 : Forall2 (fun lg rp0 => length (Reconstruct.pgroups rp0) = length (snd lg)) og [rp]) by (repeat constructor; exact HG).
+  assert (G2 : forall rp0, In rp0 [rp] -> length (Reconstruct.plookup rp0) = nobs /\ Reconstruct.locs_ok rp0)
+    by (intros rp0 [<-|[]]; auto).
+  pose proof (generated_roundtrip gh gsx env run den C table og W _ cq Hcore [rp] nobs G1 G2 [le] HF term Ev pyint0 P1 P23 Hk HW) as Hmain.
+  (* the single returned list is the entry of the table *)
+  assert (Hl : snd le = l).
+  { cbn [filter] in Hout. destruct (negb (length (snd le) =? 0)) eqn:En.
+    - inversion Hout. destruct le; cbn in *; congruence.
+    - discriminate. }
+  unfold results_of in Hmain. cbn [combine map] in Hmain. rewrite Hl in Hmain. apply Hmain.
+  intros pd key [<-|[]] Hkey. exact (Hkeys key Hkey).
+Qed.
